@@ -381,6 +381,60 @@ func TestReadsSurviveReplicaLoss(t *testing.T) {
 		}
 		evid.R.Eval()
 		evid.R.Label(fmt.Sprintf("read/replicas=%d", nr))
+		// A replica may hold a damaged (shorter) copy of a blob another replica holds intact: the overlap
+		// then differs in size. Such a blob must still be reported exactly once by stat and enumerate
+		// (its reported size and fetched bytes depend on which replica answers and are not judged).
+		if nr >= 2 && rapid.IntRange(0, 3).Draw(t, "damagedCopy") == 0 {
+			extra := vgen.GenBlob(false).Draw(t, "damagedBlob")
+			if len(extra.Data) >= 2 && model.State(extra.Ref) == vmodel.Absent {
+				a := rapid.IntRange(0, nr-1).Draw(t, "intactOn")
+				b := (a + 1 + rapid.IntRange(0, nr-2).Draw(t, "damagedOn")) % nr
+				readStores[a].RawPut(extra.Ref, extra.Data)
+				readStores[b].RawPut(extra.Ref, extra.Data[:len(extra.Data)/2])
+				evid.R.Label("read/with-damaged-copy")
+				got, err := vmodel.Enumerate(ctx, sto, "", 1000)
+				if err != nil {
+					t.Fatalf("C12 violated: enumerate failed: %v", err)
+				}
+				n := 0
+				for _, sb := range got {
+					if sb.Ref == extra.Ref {
+						n++
+					}
+				}
+				if n != 1 {
+					t.Fatalf("C12 violated: blob %s held by replica #%d (intact) and #%d (shorter copy) is enumerated %d times, want exactly once (layout %v)", extra.Ref, a, b, n, layout)
+				}
+				for _, page := range []int{1, 2, 3} {
+					seen := 0
+					after := ""
+					for rounds := 0; rounds < 64; rounds++ {
+						pg, err := vmodel.Enumerate(ctx, sto, after, page)
+						if err != nil {
+							t.Fatalf("C12 violated: enumerate failed: %v", err)
+						}
+						for _, sb := range pg {
+							if sb.Ref == extra.Ref {
+								seen++
+							}
+						}
+						if len(pg) < page {
+							break
+						}
+						after = pg[len(pg)-1].Ref.String()
+					}
+					if seen != 1 {
+						t.Fatalf("C12 violated: paging with page size %d lists blob %s (intact on #%d, shorter copy on #%d) %d times, want exactly once", page, extra.Ref, a, b, seen)
+					}
+				}
+				cnt := 0
+				if err := sto.StatBlobs(ctx, []blob.Ref{extra.Ref}, func(sb blob.SizedRef) error { cnt++; return nil }); err != nil || cnt != 1 {
+					t.Fatalf("C12 violated: StatBlobs of %s (intact on #%d, shorter copy on #%d) reported it %d times (err %v), want exactly once", extra.Ref, a, b, cnt, err)
+				}
+				readStores[a].RawDelete(extra.Ref)
+				readStores[b].RawDelete(extra.Ref)
+			}
+		}
 		// fetch with erroring earlier replicas
 		failMask := rapid.IntRange(0, 1<<nr-1).Draw(t, "fetchFailingReplicas")
 		errBefore := false
